@@ -80,6 +80,7 @@ FirstPc(o) == CASE o.op \in {"write", "write_hash"} -> "w_create"
                 [] o.op = "remove_hash" -> "xh_unlink"
                 [] o.op = "exists" -> "e_stat"
                 [] o.op = "list" -> "l_walk"
+                [] o.op = "link_to" -> "k_sym"
 
 Start(p, o) ==
     /\ pc[p] = "idle" /\ nstarts < MaxStarts
@@ -115,6 +116,14 @@ Publish(p) ==          \* renameat(tmp, content path): linearization point 1
        THEN Finish(p, Ok(op[p].d)) /\ UNCHANGED <<bex, bk>>
        ELSE pc' = [pc EXCEPT ![p] = "w_open"] /\ UNCHANGED <<bex, bk, res, log>>
     /\ UNCHANGED <<op, seen, fdc, acc, todo, crashed, nfaults, nstarts>>
+
+\* link_to(k, target holding d): the content address becomes a symbolic link to the target (no
+\* temp file, no copy); EEXIST with something at the address is accepted; then the index record
+SymlinkContent(p) ==   \* symlinkat(target, content path): linearization point 1 of a link
+    /\ pc[p] = "k_sym"
+    /\ cf' = [cf EXCEPT ![op[p].d] = IF @ = NoFile THEN "link" ELSE @]
+    /\ pc' = [pc EXCEPT ![p] = "w_open"]
+    /\ UNCHANGED <<tmpf, bex, bk, op, res, seen, fdc, acc, todo, crashed, nfaults, nstarts, log>>
 
 OpenBucketW(p) ==      \* openat(bucket, O_WRONLY|O_CREAT|O_APPEND) creates an empty file
     /\ pc[p] \in {"w_open", "x_open"}
@@ -160,7 +169,7 @@ OpenContent(p) ==      \* openat(content path): the inode opened is read to the 
 
 ReadContent(p) ==      \* read()...; digest compared with the address
     /\ pc[p] = "r_rdc"
-    /\ Finish(p, IF fdc[p] = op[p].d THEN Ok(op[p].d) ELSE Err("Integrity"))
+    /\ Finish(p, IF fdc[p] \in {op[p].d, "link"} THEN Ok(op[p].d) ELSE Err("Integrity"))
     /\ UNCHANGED <<cf, tmpf, bex, bk, op, seen, fdc, acc, todo, crashed, nfaults, nstarts>>
 
 UnlinkContent(p) ==    \* remove_hash
@@ -221,17 +230,19 @@ Next == \/ \E p \in Procs : \E o \in OpSet : Start(p, o)
         \/ \E p \in Procs : \/ CreateTmp(p) \/ WriteTmp(p) \/ Publish(p) \/ OpenBucketW(p)
                             \/ AppendRecord(p) \/ OpenBucketR(p) \/ ReadBucket(p) \/ OpenContent(p)
                             \/ ReadContent(p) \/ UnlinkContent(p) \/ StatContent(p) \/ WalkVisit(p)
-                            \/ Fault(p)
+                            \/ SymlinkContent(p) \/ Fault(p)
         \/ Crash
 
 Spec == Init /\ [][Next]_vars
 FairSpec == Spec /\ \A p \in Procs : WF_vars(CreateTmp(p) \/ WriteTmp(p) \/ Publish(p) \/ OpenBucketW(p)
                             \/ AppendRecord(p) \/ OpenBucketR(p) \/ ReadBucket(p) \/ OpenContent(p)
-                            \/ ReadContent(p) \/ UnlinkContent(p) \/ StatContent(p) \/ WalkVisit(p))
+                            \/ ReadContent(p) \/ UnlinkContent(p) \/ StatContent(p) \/ WalkVisit(p)
+                            \/ SymlinkContent(p))
 
 (* ---- properties ------------------------------------------------------------------ *)
 
-ContentAtomic == \A d \in Datas : cf[d] \in {NoFile, d}
+\* ("link": a symbolic link to an external file holding d - complete by construction)
+ContentAtomic == \A d \in Datas : cf[d] \in {NoFile, d, "link"}
 
 NoPartialRecord ==
     (~crashed /\ nfaults = 0) => \A k \in Keys : \A i \in 1..Len(bk[k]) : bk[k][i].t = "rec"
@@ -239,14 +250,15 @@ NoPartialRecord ==
 NoRemoveHash == \A o \in OpSet : o.op # "remove_hash"
 
 \* index after content: whenever an entry is visible its content is completely stored
-Resolvable == NoRemoveHash => \A k \in Keys : Lookup(k) # "NONE" => cf[Lookup(k)] = Lookup(k)
+Resolvable == NoRemoveHash => \A k \in Keys : Lookup(k) # "NONE" => cf[Lookup(k)] \in {Lookup(k), "link"}
 
 \* temp files belong to live (or killed) writers only
 TmpPrivate == \A p \in Procs : tmpf[p] # NoFile => pc[p] \in {"w_data", "dead"}
 
 (* serial semantics of the contract, as pure functions on [m: Keys -> value|"NONE", c: SUBSET Datas] *)
 SeqApply(st, o) ==
-    CASE o.op = "write"       -> [st |-> [m |-> [st.m EXCEPT ![o.k] = o.d], c |-> st.c \cup {o.d}], r |-> Ok(o.d)]
+    CASE o.op \in {"write", "link_to"}
+                              -> [st |-> [m |-> [st.m EXCEPT ![o.k] = o.d], c |-> st.c \cup {o.d}], r |-> Ok(o.d)]
       [] o.op = "write_hash"  -> [st |-> [m |-> st.m, c |-> st.c \cup {o.d}], r |-> Ok(o.d)]
       [] o.op = "remove"      -> [st |-> [m |-> [st.m EXCEPT ![o.k] = "NONE"], c |-> st.c], r |-> Ok("unit")]
       [] o.op = "remove_hash" -> IF o.d \in st.c THEN [st |-> [m |-> st.m, c |-> st.c \ {o.d}], r |-> Ok("unit")]
@@ -283,17 +295,17 @@ Serializable ==
 Truthful ==
     \A i \in 1..Len(log) :
        LET e == log[i] IN
-       (e.res.ok /\ e.op.op \in {"write", "write_hash"}) =>
+       (e.res.ok /\ e.op.op \in {"write", "write_hash", "link_to"}) =>
           \* at the moment it completed the data was stored: the content is only ever removed again
           \* by a remove_hash (excluded when checking this)
-          (NoRemoveHash => cf[e.op.d] = e.op.d)
+          (NoRemoveHash => cf[e.op.d] \in {e.op.d, "link"})
 
 \* C04: after a crash every key maps to a value some started operation was writing, or to what
 \* it had (here: "NONE"), never to anything else, and the entry resolves
 CrashAtomic ==
     crashed => \A k \in Keys :
         \/ Lookup(k) = "NONE"
-        \/ \E p \in Procs : op[p].op = "write" /\ op[p].k = k /\ op[p].d = Lookup(k)
+        \/ \E p \in Procs : op[p].op \in {"write", "link_to"} /\ op[p].k = k /\ op[p].d = Lookup(k)
 
 \* liveness: every started operation terminates (no retry loop without progress)
 Terminates == <>[](\A p \in Procs : ~Running(p))
